@@ -119,9 +119,9 @@ CHECKS = {
         technique="Coq proof (total decision function with explicit Crash/OsError constructors proved unreachable; consistency by case analysis over the port search) + exhaustive cross-product correspondence"),
 
     "C04": dict(
-        text=("31 theorems (Props/C04.v). Proved for every initial kernel state (foreign rules, other instances), every plan, every cut and every "
+        text=("35 theorems (Props/C04.v). Proved for every initial kernel state (foreign rules, other instances), every plan, every cut and every "
               "fault set (nat/nft/tproxy): everything not named for the session's ports is unchanged and in order at every intermediate state; a cut "
-              "before GO issues no command; once no own object remains the final state is exactly the initial one; the chain-listing parse is exact "
+              "before GO issues no command; once no own object remains the final state is exactly the initial one; the chain-listing parse (decode as ASCII with errors='replace', split at line feeds, startswith) is exact membership for tables whose foreign rules and chain names carry ARBITRARY bytes without line feed (c04_chain_exists_exact, c04_chain_exists_bytes_exact; with a line feed in a foreign comment it can be forged: c04_listing_lf_refuted, an observation) — i.e. exact "
               "membership (sshuttle-1230 vs sshuttle-12300). The clause 'every exit path: nothing own remains and a later session can start, for every k-th failing "
               "command and every cut' is PROVED IN GENERAL for nat without owner match, tproxy (repaired) and nft (c04_nat_all_exits, c04_tproxy_all_exits, c04_nft_all_exits: every plan body, every clean start state with foreign rules/chains/other instances, "
               "every failing command index, every cut; abstract own-object state + simulation, Proofs/FwLife_gen_*.v); for nat with --user/--group it is proved in general too (c04_all_exits_full: every exit except a failing tear-down `-t mangle -D OUTPUT … MARK`, which is known finding F41). "
